@@ -878,3 +878,21 @@ T('C14', 'in-place-logarithm-through-a-local', [(F, _LOG, "        values = self
 K('C11', 'leftover-records-drawn-with-replacement-unbuffered', [(GM, "                idx = np.random.choice(counts.size, extra, False, frac / frac.sum())\n                integ[idx] += 1\n",
                                                                    "                idx = np.random.choice(counts.size, extra, True, frac / frac.sum())\n                np.add.at(integ, idx, 1)\n")], 'count-conservation')
 
+# ------------------------------------------------------------------ round 16: the rules added for its pairs
+_PAIRSOF = "            G.add_edges_from(itertools.combinations(cl, 2))\n"
+K('C12', 'clique-attributes-joined-in-a-ring', [(JT, _PAIRSOF, "            if len(cl) > 1: nx.add_cycle(G, cl)\n")], 'graph-from-cliques')
+T('C12', 'clique-attributes-joined-by-complete-graph', [(JT, _PAIRSOF, "            if len(cl) > 1: G.update(nx.complete_graph(cl))\n")])
+_AVG = "            if terminate: return ans * (self.total / ans.sum())\n"
+K('C16', 'in-clique-answer-as-a-plain-average', [(FG, "            terminate = False\n", "            terminate = False\n            count = 0\n"),
+                                                  (FG, "                    terminate = True\n", "                    terminate = True\n                    count += 1\n"),
+                                                  (FG, _AVG, "            if terminate: return ans / count\n")], 'project-rescaled')
+_GBPMIX = "                self.messages[ru,rd] = 0.5*self.messages[ru,rd] + 0.5*new[ru,rd]\n"
+_MOVE = "        values = np.moveaxis(values, range(len(ax)), ax)\n"
+_PERM = ("        if %s:\n            dest = list(ax) + [k for k in range(len(domain)) if k not in ax]\n            values = values.transpose(np.argsort(dest))\n")
+for _p in ('C14',):
+    K(_p, 'own-axes-in-place-judged-by-their-ends', [(F, _MOVE, _PERM % "ax[:1] != (0,) or ax[-1:] != (len(ax)-1,)")], 'broadcast')
+    T(_p, 'own-axes-in-place-judged-exactly', [(F, _MOVE, _PERM % "ax != tuple(range(len(ax)))")])
+_NOISE = "            assert np.isscalar(noise), 'noise must be a real value, given ' + str(noise)\n"
+K('C04', 'noise-floored-at-single-precision-epsilon', [(INF, _NOISE, _NOISE + "            noise = max(float(noise), np.finfo(np.float32).eps)\n")], 'spelling')
+T('C04', 'noise-floored-at-the-smallest-double', [(INF, _NOISE, _NOISE + "            noise = max(float(noise), np.finfo(float).tiny)\n")])
+
